@@ -52,7 +52,7 @@ type Case struct {
 	// Late: this many services are registered one right after the other while
 	// the goroutines are at work, after the session was created: the session
 	// hears of them through the directory's signals. Once they are registered,
-	// requests for them succeed too (the harness allows the news five seconds)
+	// requests for them succeed too (the harness allows the news fifteen seconds)
 	Late int `json:"late,omitempty"`
 }
 
@@ -265,13 +265,13 @@ func checkCase(c Case) error {
 					name := fmt.Sprintf("Late%d", (k+g)%c.Late)
 					var px bus.Proxy
 					var err error
-					for deadline := time.Now().Add(5 * time.Second); ; time.Sleep(2 * time.Millisecond) {
+					for deadline := time.Now().Add(15 * time.Second); ; time.Sleep(2 * time.Millisecond) {
 						if px, err = sess.Proxy(name, 1); err == nil || time.Now().After(deadline) {
 							break
 						}
 					}
 					if err != nil {
-						firstErr.Store(vt.Violationf("C19:registered-service-not-found", "%d services were registered one after the other while the session was in use; five seconds later Proxy(%q) still fails: %v", c.Late, name, err))
+						firstErr.Store(vt.Violationf("C19:registered-service-not-found", "%d services were registered one after the other while the session was in use; fifteen seconds later Proxy(%q) still fails: %v", c.Late, name, err))
 						return
 					}
 					tag := fmt.Sprintf("late%dg%d", k, g)
